@@ -3,6 +3,23 @@ import itertools, os
 from vlib import common as C
 from vlib.uritab import render_uritab
 
+MANIFEST = {
+    "text": "Lean theorems about the transcription M of src/coap_uri.c: coap_get_uri_path / coap_get_query compute RFC 7252 §6.5's "
+            "strings with escape tables regenerated from the code and proved equal to the RFC's character classes "
+            "(get_uri_path_eq_spec, get_query_eq_spec, escape_tables_match_rfc); those strings are injective modulo the single "
+            "empty segment (uri_path_injective, query_injective) and feed back to the same options (path_feeds_back, "
+            "query_feeds_back); coap_path_into_optlist / coap_query_into_optlist equal the RFC 3986 / RFC 7252 §6.4 splitting on "
+            "every string with well-formed escapes (split_path_eq_spec, split_query_eq_spec, decode_once, "
+            "dot_segments_never_emitted); no transcribed function reads outside the length-delimited input for any input and "
+            "any output buffer size (no_overread). coap_split_path / coap_split_query (buffer writers) and coap_split_uri are "
+            "proved in part (_partial) and otherwise compared with S differentially. M is tied to the compiled code by "
+            "differential runs (I vs M vs S) under ASan/UBSan with exact-size input and output buffers.",
+    "note": "Trusted: Lean kernel (+ propext, Classical.choice, Quot.sound), the T1 extractor and T2 harness/generators, the hand "
+            "transcription M (checked against the compiled code on the cases run only). Seven defects found on the way are fixed "
+            "in libcoap (KNOWN_FINDINGS.txt); M is transcribed from the fixed code. Malformed escapes handed directly to the "
+            "component splitters and output buffers below the documented minimum are outside S (SPEC DECISIONS D16a/D16b).",
+    "design_ref": "DESIGN.md §4 C16, design/C16.md",
+}
 LEAN_MODULES = ["CoapVerif.Props.C16"]
 NAMESPACE = "Coap.C16"
 REQUIRED_THEOREMS = ["escape_tables_match_rfc", "get_uri_path_eq_spec", "get_query_eq_spec", "uri_path_injective",
@@ -78,6 +95,22 @@ def rstring(rng, n):
     return b"".join(rchar(rng) for _ in range(n))
 
 
+GOOD = [p for p in PIECES if p.count(b"%") * 3 == sum(1 for i in range(len(p)) if p[i:i + 1] == b"%" and len(p) >= i + 3
+                                                        and all(c in HEXD for c in p[i + 1:i + 3])) * 3 and b"%%" not in p and b"%2%" not in p]
+
+
+def rclean(rng, sep):
+    """a component whose escapes are all well formed"""
+    k = rng.choice([0, 1, 1, 2, 2, 3, 4])
+    segs = []
+    for _ in range(k):
+        if rng.random() < 0.6:
+            segs.append(b"".join(rng.choice(GOOD) for _ in range(rng.choice([1, 1, 2, 3]))))
+        else:
+            segs.append(bytes(rng.choice(b"abxyz012E~-_=+@!$'()*,;:.") for _ in range(rng.choice([0, 1, 2, 5]))))
+    return sep.join(segs)
+
+
 def rcomponent(rng, sep):
     """a path / query made of pieces, so that dot segments, escapes and empties occur as whole segments"""
     k = rng.choice([0, 1, 1, 2, 2, 3, 4, 6])
@@ -132,13 +165,14 @@ def ruri(rng):
         if rng.random() < 0.5:
             u += b"?" + rcomponent(rng, b"&")
         return u
-    u = rng.choice(SCHEMES[:8] if rng.random() < 0.85 else SCHEMES) + rng.choice([b"://"] * 8 + [b":/", b"//", b":"])
-    u += rng.choice(HOSTS[:6] if rng.random() < 0.7 else HOSTS) + rng.choice(PORTS)
+    u = rng.choice(SCHEMES[:4] + SCHEMES[6:8] if rng.random() < 0.8 else SCHEMES) + rng.choice([b"://"] * 12 + [b":/", b"//", b":"])
+    u += rng.choice(HOSTS[:6] if rng.random() < 0.7 else HOSTS) + rng.choice(PORTS[:12] if rng.random() < 0.8 else PORTS)
+    comp = rclean if rng.random() < 0.7 else rcomponent
     c = rng.random()
     if c < 0.75:
-        u += b"/" + rcomponent(rng, b"/")
+        u += b"/" + comp(rng, b"/")
     if rng.random() < 0.5:
-        u += b"?" + rcomponent(rng, b"&")
+        u += b"?" + comp(rng, b"&")
     if rng.random() < 0.12:        # blind mutation
         i = rng.randrange(len(u) + 1)
         u = u[:i] + rchar(rng) + u[i + rng.choice([0, 1]):]
@@ -153,7 +187,7 @@ def need(b):
 
 def generate(ctx, escalate=False):
     rng = ctx.rng
-    n = 160000 if ctx.thorough() else 16000
+    n = 500000 if ctx.thorough() else 50000
     if escalate:
         n *= 3
     out = []
@@ -186,7 +220,7 @@ def generate(ctx, escalate=False):
     if ctx.thorough():
         out += exhaustive(5)
     else:
-        out += exhaustive(3)
+        out += exhaustive(4)
     return out
 
 
@@ -229,8 +263,14 @@ def fields(s):
 
 
 def unix_host(u):
+    """coap_host_is_unix_domain(): the host starts with %2F or (inside brackets) with '/'  (D16f)"""
     i = u.find(b"://")
-    return i >= 0 and u[i + 3:i + 6].lower() == b"%2f"
+    if i < 0:
+        return False
+    h = u[i + 3:]
+    if h.startswith(b"["):
+        h = h[1:]
+    return h[:3].lower() == b"%2f" or h[:1] == b"/"
 
 
 def judge(ctx, c):
